@@ -255,14 +255,15 @@ M('c02-meta-set-emptied', 'C02', 'R6', APP,
   "_META_METHODS: ClassVar[FrozenSet[str]] = frozenset(constants._META_METHODS)",
   "_META_METHODS: ClassVar[FrozenSet[str]] = frozenset()")
 
-M('c02-static-bare-prefix-before-normalisation', 'C02', 'R7', 'falcon/routing/static.py',
-  """        if not prefix.endswith('/'):
+M2('c02-static-bare-prefix-before-normalisation', 'C02', 'R7', [
+    {'file': 'falcon/routing/static.py', 'old': """        if not prefix.endswith('/'):
             prefix += '/'
 
         self._prefix = prefix
-""", """        self._bare_prefix = prefix
+""", 'new': """        self._bare_prefix = prefix
         if not prefix.endswith('/'):
             prefix += '/'
 
         self._prefix = prefix
-""")
+"""},
+    {'file': 'falcon/routing/static.py', 'old': "path == self._prefix[:-1]", 'new': "path == self._bare_prefix"}])
